@@ -38,6 +38,10 @@ pub struct GenCfg {
     pub p_multi_shift: f64,
     pub p_multi_jobs: f64,
     pub p_time_matrices: f64,
+    /// Probability that a two-place optional break mixes a place with and a place without location.
+    pub p_break_mixed_places: f64,
+    /// Share of "unreachable" problems that flag a single isolated directed pair instead of a whole location.
+    pub p_unreachable_pair: f64,
     /// Always put unique tags on places of multi-task jobs and multi-place tasks (needed by init-solution reader / checker).
     pub always_tag: bool,
 }
@@ -71,6 +75,8 @@ impl Default for GenCfg {
             p_multi_shift: 0.2,
             p_multi_jobs: 0.6,
             p_time_matrices: 0.0,
+            p_break_mixed_places: 0.0,
+            p_unreachable_pair: 0.0,
             always_tag: true,
         }
     }
@@ -478,11 +484,15 @@ pub fn generate(rng: &mut Rng, cfg: &GenCfg) -> PragProblem {
                     json!([fmt_off(b_start), fmt_off(b_end)])
                 };
                 let n_places = rng.range_usize(1, 2);
+                // all places of one break either have a location or none has (mixing them makes the solver
+                // assert "break with multiple places is not supported"; probed separately as a recorded finding)
+                let with_location = rng.chance(0.35);
+                let mixed = cfg.p_break_mixed_places > 0. && rng.chance(cfg.p_break_mixed_places);
                 let places: Vec<Value> = (0..n_places)
                     .map(|k| {
                         let mut p = Map::new();
                         p.insert("duration".into(), json!(*rng.pick(&[5i64, 10, 30, 60]) as f64));
-                        if rng.chance(0.35) {
+                        if (with_location && !mixed) || (mixed && k == 0) {
                             p.insert("location".into(), loc_json(geo.any(rng)));
                             features.insert("break-location".into());
                         }
@@ -638,6 +648,8 @@ pub fn generate(rng: &mut Rng, cfg: &GenCfg) -> PragProblem {
 
     // ------------------------------------------------------------------ matrices
     let n_loc = geo.used.len();
+    let mut fleet_locs: BTreeSet<usize> = BTreeSet::new();
+    collect_indices(&problem["fleet"], &mut fleet_locs);
     let asym = rng.chance(cfg.p_asymmetric);
     if asym {
         features.insert("asymmetric".into());
@@ -665,21 +677,53 @@ pub fn generate(rng: &mut Rng, cfg: &GenCfg) -> PragProblem {
         m.insert("travelTimes".into(), json!(time));
         m.insert("distances".into(), json!(dist));
         if unreachable {
-            // one location (never a depot/home: pick among job-only locations is not tracked, so use error codes on
-            // a single directed pair which keeps the problem solvable)
-            let a = rng.usize_below(n_loc);
-            let b = rng.usize_below(n_loc);
-            if a != b {
-                let mut codes = vec![0i64; n_loc * n_loc];
-                codes[a * n_loc + b] = 1;
+            // realistic unreachability: a whole job-only location cannot be reached in this profile (row and column
+            // flagged, as a routing engine reports it); `p_unreachable_pair` instead flags one isolated directed pair
+            let mut codes = vec![0i64; n_loc * n_loc];
+            let mut any = false;
+            if cfg.p_unreachable_pair > 0. && rng.chance(cfg.p_unreachable_pair) {
+                let a = rng.usize_below(n_loc);
+                let b = rng.usize_below(n_loc);
+                if a != b {
+                    codes[a * n_loc + b] = 1;
+                    any = true;
+                    features.insert("unreachable-pair".into());
+                }
+            } else {
+                let candidates: Vec<usize> = (0..n_loc).filter(|l| !fleet_locs.contains(l)).collect();
+                if !candidates.is_empty() && (pi == 0 || rng.chance(0.5)) {
+                    let l = *rng.pick(&candidates);
+                    for x in 0..n_loc {
+                        if x != l {
+                            codes[x * n_loc + l] = 1;
+                            codes[l * n_loc + x] = 1;
+                        }
+                    }
+                    any = true;
+                    features.insert("unreachable".into());
+                }
+            }
+            if any {
                 m.insert("errorCodes".into(), json!(codes));
-                features.insert("unreachable".into());
             }
         }
         matrices.push(Value::Object(m));
     }
 
     PragProblem { problem: Value::Object(problem), matrices, features, jobs: n_jobs, vehicles: n_vehicles, locations: n_loc }
+}
+
+fn collect_indices(v: &Value, out: &mut BTreeSet<usize>) {
+    match v {
+        Value::Object(m) => {
+            if let Some(i) = m.get("index").and_then(|i| i.as_u64()) {
+                out.insert(i as usize);
+            }
+            m.values().for_each(|x| collect_indices(x, out));
+        }
+        Value::Array(a) => a.iter().for_each(|x| collect_indices(x, out)),
+        _ => {}
+    }
 }
 
 fn gen_objectives(rng: &mut Rng, any_value: bool, any_order: bool, features: &mut BTreeSet<String>) -> Vec<Value> {
@@ -727,7 +771,7 @@ fn gen_objectives(rng: &mut Rng, any_value: bool, any_order: bool, features: &mu
     let mut tail: Vec<Value> = Vec::new();
     for e in extras {
         let t = e["type"].as_str().unwrap().to_string();
-        if (t == "minimize-unassigned" || t == "maximize-value") && rng.chance(0.85) {
+        if t == "maximize-value" || (t == "minimize-unassigned" && rng.chance(0.85)) {
             objs.push(e);
         } else {
             tail.push(e);
@@ -736,7 +780,9 @@ fn gen_objectives(rng: &mut Rng, any_value: bool, any_order: bool, features: &mu
     tail.push(cost);
     rng.shuffle(&mut tail);
     // optionally fold two tail objectives into one multi-objective layer
-    if tail.len() >= 2 && rng.chance(0.25) {
+    // a list holding only one multi-objective layer is rejected by the reader ("no objectives specified in the goal",
+    // recorded C10 finding), so a layer is only folded when another top-level objective remains
+    if tail.len() >= 2 && (tail.len() >= 3 || !objs.is_empty()) && rng.chance(0.25) {
         let a = tail.remove(0);
         let b = tail.remove(0);
         let strategy = if rng.chance(0.5) { json!({"name": "sum"}) } else { json!({"name": "weighted-sum", "weights": [0.7, 0.3]}) };
